@@ -56,17 +56,31 @@ def ref_pwl(kind, col, l1, l2, cyclic):
 
 
 # ------------------------------------------------------------------- binding
-def impl_lattice(kind, sizes, l1, l2, K):
+def impl_lattice(kind, sizes, l1, l2, K, via="object"):
   tf, tfl = bind.bind()
   from tensorflow_lattice.python import lattice_layer
+  if via == "layer":
+    # the tuple spelling of the layer argument, read back through layer.losses
+    units = K.shape[1]
+    layer = tfl.layers.Lattice(lattice_sizes=list(sizes), units=units, kernel_regularizer=(kind, l1, l2))
+    layer.build((None, len(sizes)) if units == 1 else (None, units, len(sizes)))
+    layer.kernel.assign(np.asarray(K, dtype=np.float32))
+    return float(sum(float(x) for x in layer.losses))
   cls = lattice_layer.LaplacianRegularizer if kind == "laplacian" else lattice_layer.TorsionRegularizer
   reg = cls(lattice_sizes=list(sizes), l1=l1, l2=l2)
   return float(reg(tf.constant(np.asarray(K, dtype=np.float32))))
 
 
-def impl_pwl(kind, l1, l2, cyclic, K):
+def impl_pwl(kind, l1, l2, cyclic, K, via="object"):
   tf, tfl = bind.bind()
   from tensorflow_lattice.python import pwl_calibration_layer as pl
+  if via == "layer":
+    rows, units = K.shape
+    layer = tfl.layers.PWLCalibration(input_keypoints=np.arange(rows + (1 if cyclic else 0), dtype=np.float32),
+                                      units=units, is_cyclic=cyclic, kernel_regularizer=(kind, l1, l2))
+    layer.build((None, 1))
+    layer.kernel.assign(np.asarray(K, dtype=np.float32))
+    return float(sum(float(x) for x in layer.losses))
   cls = dict(laplacian=pl.LaplacianRegularizer, hessian=pl.HessianRegularizer,
              wrinkle=pl.WrinkleRegularizer)[kind]
   reg = cls(l1=l1, l2=l2, is_cyclic=cyclic)
@@ -111,6 +125,12 @@ def items(tier):
       for cyclic in (False, True):
         for l1, l2 in ((0.5, 0.0), (0.0, 2.0), (0.5, 2.0)):
           out.append(dict(fam="pwl", kind=kind, rows=rows, cyclic=cyclic, l1=l1, l2=l2))
+        # the same regularizer reached through the layer: PWLCalibration(kernel_regularizer=(name, l1, l2))
+        out.append(dict(fam="pwl", kind=kind, rows=rows, cyclic=cyclic, l1=0.5, l2=2.0, via="layer"))
+  for sizes in ([2, 3], [3, 2, 2]):
+    for kind in ("laplacian", "torsion"):
+      for l1, l2 in amounts(len(sizes))[:6]:
+        out.append(dict(fam="lattice", kind=kind, sizes=sizes, l1=l1, l2=l2, via="layer"))
   return out
 
 
@@ -133,11 +153,11 @@ def kernel_columns(n, tier):
 
 def evaluate(item, K):
   if item["fam"] == "lattice":
-    impl = impl_lattice(item["kind"], item["sizes"], item["l1"], item["l2"], K)
+    impl = impl_lattice(item["kind"], item["sizes"], item["l1"], item["l2"], K, item.get("via", "object"))
     f = ref_lattice_laplacian if item["kind"] == "laplacian" else ref_lattice_torsion
     ref = sum(f(K[:, u], item["sizes"], item["l1"], item["l2"]) for u in range(K.shape[1]))
   else:
-    impl = impl_pwl(item["kind"], item["l1"], item["l2"], item["cyclic"], K)
+    impl = impl_pwl(item["kind"], item["l1"], item["l2"], item["cyclic"], K, item.get("via", "object"))
     ref = sum(ref_pwl(item["kind"], K[:, u], item["l1"], item["l2"], item["cyclic"])
               for u in range(K.shape[1]))
   return impl, ref
@@ -199,6 +219,7 @@ def work(ctx, item):
              amounts=("list" if isinstance(item["l1"], list) or isinstance(item["l2"], list) else "scalar"))
   if item["fam"] == "pwl":
     sig["cyclic"] = int(item["cyclic"])
+  sig["via"] = item.get("via", "object")
   total, nontriv = 0, 0
   # single columns (units=1) for small spaces, blocks (units>1) always
   blocks = []
